@@ -1,6 +1,7 @@
 package harness
 
 import (
+	"errors"
 	"context"
 	"fmt"
 	"os"
@@ -320,6 +321,17 @@ func (w *World) argsAndReply(c *CallRec) (args, reply interface{}) {
 	if c.Flags&FlEmpty != 0 {
 		c.reply = &Msg{} // the reply will be the zero message: start from a zero object, as users do
 	}
+	if c.Bad == "reply" {
+		// a reply object the (well-formed) reply cannot be decoded into: the call must fail
+		switch w.P.Codec {
+		case "pb":
+			return (*PBMsg)(m), &noDecodePB{}
+		case "json":
+			return m, &[]int{}
+		case "code":
+			return m, &noDecodeCode{}
+		}
+	}
 	switch w.P.Codec {
 	case "pb":
 		if c.Bad == "args" {
@@ -350,6 +362,21 @@ func (w *World) argsAndReply(c *CallRec) (args, reply interface{}) {
 	return m, c.reply
 }
 
+// noDecodePB / noDecodeCode are reply objects whose decoding always fails.
+type noDecodePB struct{}
+
+var errNoDecode = errors.New("msg: this reply type cannot be decoded")
+
+func (*noDecodePB) Size() int                         { return 0 }
+func (*noDecodePB) Marshal() ([]byte, error)          { return nil, nil }
+func (*noDecodePB) MarshalTo(buf []byte) (int, error) { return 0, nil }
+func (*noDecodePB) Unmarshal(data []byte) error       { return errNoDecode }
+
+type noDecodeCode struct{}
+
+func (*noDecodeCode) Marshal(buf []byte) ([]byte, error)   { return nil, nil }
+func (*noDecodeCode) Unmarshal(buf []byte) (uint64, error) { return 0, errNoDecode }
+
 // rawPB / rawCode send arbitrary bytes as the request body.
 type rawPB struct{ b []byte }
 
@@ -368,6 +395,12 @@ func (r *rawCode) Unmarshal(buf []byte) (uint64, error) { return 0, nil }
 func (w *World) checkReply(c *CallRec) {
 	if c.Form == "ping" {
 		c.ReplyOK = c.Err == ""
+		return
+	}
+	if c.Bad == "reply" {
+		if c.Err == "" {
+			c.ReplyWhy = "the reply could not be decoded into the reply object, yet the call completed without error"
+		}
 		return
 	}
 	var got *Msg
